@@ -1179,11 +1179,11 @@ static sexp analyze (sexp ctx, sexp object, int depth, int defok) {
           res = sexp_length(ctx, sexp_cdr(x));
           if (sexp_unbox_fixnum(res) < sexp_opcode_num_args(op)) {
             sexp_warn(ctx, "not enough args for opcode: ", x);
-            op = analyze_var_ref(ctx, sexp_car(x), NULL);
+            tmp = op = analyze_var_ref(ctx, sexp_car(x), NULL);  /* op is a fresh Ref: keep it rooted while the arguments are analyzed */
           } else if ((sexp_unbox_fixnum(res) > sexp_opcode_num_args(op))
                      && (! sexp_opcode_variadic_p(op))) {
             sexp_warn(ctx, "too many args for opcode: ", x);
-            op = analyze_var_ref(ctx, sexp_car(x), NULL);
+            tmp = op = analyze_var_ref(ctx, sexp_car(x), NULL);  /* op is a fresh Ref: keep it rooted while the arguments are analyzed */
           }
           res = analyze_list(ctx, sexp_cdr(x), 0, 0);
           if (! sexp_exceptionp(res)) {
